@@ -179,7 +179,7 @@ func initAllow(path string) bool {
 
 // packages whose globals may be read as zero values without running init
 var zeroOKList = map[string]bool{
-	"sync": true, "runtime": true, "errors": true, "internal/reflectlite": true, "math": true, "internal/race": true, "internal/godebug": true,
+	"sync": true, "runtime": true, "time": true, "context": true, "errors": true, "internal/reflectlite": true, "math": true, "internal/race": true, "internal/godebug": true,
 	repoMod + "/zitiql": false,
 }
 
